@@ -189,6 +189,12 @@ def proof_stage(prop):
         return res
     vfile = COQ / "Props" / f"{prop}.v"
     (BUILD / "props").mkdir(exist_ok=True)
+    # the dependency chain of this property's theorems must build (strict, this property only)
+    p = subprocess.run(["timeout", "3000", "make", "--no-print-directory", "-f", "Makefile.coq", "-j8", f"Props/{prop}.vo"],
+                       cwd=COQ, stdout=subprocess.PIPE, stderr=subprocess.STDOUT)
+    if p.returncode != 0:
+        res["problems"].append(f"Props/{prop}.vo or a file it depends on does not build: " + p.stdout.decode(errors="replace")[-1500:])
+        return res
     src = vfile.read_text()
     thms = re.findall(r"^\s*(?:Theorem|Corollary|Lemma)\s+(\w+)", src, flags=re.M)
     printed = re.findall(r"^\s*Print Assumptions\s+(\w+)\s*\.", src, flags=re.M)
